@@ -37,12 +37,11 @@ var (
 )
 
 func GetTccFenceStoreDatabaseMapper() *TccFenceStoreDatabaseMapper {
-	if tccFenceStoreDatabaseMapper == nil {
-		once.Do(func() {
-			tccFenceStoreDatabaseMapper = &TccFenceStoreDatabaseMapper{}
-			tccFenceStoreDatabaseMapper.InitLogTableName()
-		})
-	}
+	// (no unsynchronised nil check in front of the Once: that read races with the initialisation)
+	once.Do(func() {
+		tccFenceStoreDatabaseMapper = &TccFenceStoreDatabaseMapper{}
+		tccFenceStoreDatabaseMapper.InitLogTableName()
+	})
 	return tccFenceStoreDatabaseMapper
 }
 
